@@ -1,15 +1,21 @@
 (* C13 - reading a graph never changes it: reads are pure and repeatable.
-   Property theorems only.  The model is Purity/Model.v over Dataset/Model.v:
-   the reads whose path in graph.py goes through ConjunctiveGraph._graph
-   (triples / quads / __contains__) or through a full pass of
-   Dataset.graphs() are [ds -> ds * out] functions; serialisers, SPARQL
-   engine, rdflib.compare, slicing and iteration are opaque reads whose purity
-   holds in the model BY CONSTRUCTION - for them only the snapshot runs of
-   harness/c13.py speak.
-   [R d sp]: d is related to the C02 specification state sp (quads equal, no
-   union-only triples, known names = listed names); every state reached by a
-   history of writes is (C13_reachable).  [names d g]: g is the default graph
-   or listed by the store. *)
+   Property theorems only.  What is PROVED here, precisely:
+   (A) about FOUR kinds of read of the C02 front-end model (Purity/Model.v
+       [do_read]: triples / quads / __contains__ - the reads whose path in
+       graph.py goes through ConjunctiveGraph._graph - and graphs()/contexts()):
+       the state after the read IS the state before it, so the read answers the
+       same again.  Every other read of the harness catalogue (serialisers, SPARQL,
+       paths, rdflib.compare, slicing, iteration, plain-Graph reads ...) is
+       [RdOpaque]: the identity on the model state BY DEFINITION - nothing is
+       proved about those calls.
+   (B) about the store's read INTERFACE as a language of programs
+       (the C13_interface theorems): no operation of the language writes to the dataset,
+       so these hold by construction of the language.  They apply to a concrete
+       serialiser/query ONLY through the per-run recording of the store methods
+       it calls (harness/c13.py, RecordingStore); no theorem says that an rdflib
+       function is such a program.
+   For the opaque reads the evidence is the run: snapshots before/after, exact
+   comparison of the first and second answer, recorded store calls. *)
 From RV Require Import Dataset.Model Dataset.Proofs Purity.Model Purity.Proofs Purity.Programs.
 Local Open Scope N_scope.
 
@@ -19,53 +25,46 @@ Theorem C13_reachable : forall b ops,
 Proof. exact reachable_R. Qed.
 Print Assumptions C13_reachable.
 
-(* EVERY read - whatever graph argument it is handed, a Graph object of
-   another store included (F19 repaired) - leaves quads, the union-only
-   triples and the set of graph names exactly as they were *)
-Theorem C13_read_pure : forall d sp r,
-  R d sp ->
-  quads (st (fst (do_read d r))) = quads (st d)
-  /\ orphans (st (fst (do_read d r))) = orphans (st d)
-  /\ (forall g, names (fst (do_read d r)) g <-> names d g).
-Proof. exact read_pure. Qed.
+(* (A) each of the four modelled kinds of read, whatever graph argument it is
+   handed (identifier, same-store Graph, Graph of another store), in EVERY state:
+   the state - quads, union-only triples, the store's list of graphs - is
+   untouched (opaque reads: by definition of the model) *)
+Theorem C13_read_pure : forall d r, fst (do_read d r) = d.
+Proof. exact do_read_state. Qed.
 Print Assumptions C13_read_pure.
 
-(* ... and the same read issued again answers the same *)
-Theorem C13_repeatable : forall d sp r,
-  R d sp ->
-  pout_eqb (snd (do_read d r)) (snd (do_read (fst (do_read d r)) r)) = true.
-Proof. exact read_repeatable. Qed.
+(* ... and issuing it again gives the same state and the same answer *)
+Theorem C13_repeatable : forall d r, do_read (fst (do_read d r)) r = do_read d r.
+Proof. exact do_read_again. Qed.
 Print Assumptions C13_repeatable.
 
-(* what the correspondence run evaluates on rdflib's snapshots: the reads
-   start from the state the C02 mapping prescribes, every snapshot shows the
-   same dataset as the one before it, every read answers the same twice *)
+(* what the correspondence run evaluates on rdflib's observations is satisfied by
+   the model on every case whose building history consists of writes: the reads
+   start from the state the C02 mapping prescribes, every snapshot shows exactly
+   the same quads and the same graph list as the one before it, every read
+   answers the same twice, no store call outside read methods + bind *)
 Theorem C13_spec_ok_model : forall c, pwf c -> spec_ok c (model_obs c) = true.
 Proof. exact spec_ok_model. Qed.
 Print Assumptions C13_spec_ok_model.
 
-(* the _graph of before the "fix:" commit for F19 copied a Graph object of
-   another store into the dataset on read paths; the repaired read does not *)
+(* historical witnesses (both repaired in /repo): the _graph of before the "fix:"
+   commit for F19 copied a Graph object of another store into the dataset on read
+   paths; the graphs() of before 6844ed54 registered the default graph with the
+   store on its first pass (F21: first and second TriX serialisation differed) *)
 Theorem C13_hist_foreign_read_refuted :
-  exists d c ts,
-    quads (st (fst (cg_graph_hist d (Some (GForeign c ts))))) <> quads (st d)
-    /\ quads (st (fst (do_read d (RdContains (pat_of (12, 4, 12)) (CQuad (Some (GForeign c ts))) false)))) = quads (st d).
+  exists d c ts, quads (st (fst (cg_graph_hist d (Some (GForeign c ts))))) <> quads (st d).
 Proof. exact hist_foreign_read_refuted. Qed.
 Print Assumptions C13_hist_foreign_read_refuted.
 
-(* below the API, Dataset.graphs() does write: the first full pass registers
-   the default graph with the store.  graphs() itself always lists the default
-   graph, so the set of graphs the dataset shows does not change (C13_read_pure
-   is about [names]); stated so that the write is on record. *)
-Theorem C13_graphs_registers_default_refuted :
-  exists d, known (st (fst (do_read d RdGraphs))) <> known (st d).
-Proof. exact graphs_registers_default_refuted. Qed.
-Print Assumptions C13_graphs_registers_default_refuted.
+Theorem C13_hist_graphs_registers_default_refuted :
+  exists d, known (st (fst (ds_graphs_hist d))) <> known (st d).
+Proof. exact hist_graphs_registers_default_refuted. Qed.
+Print Assumptions C13_hist_graphs_registers_default_refuted.
 
-(* readings of the checker *)
+(* readings of the checker: nothing is absorbed *)
 Theorem C13_same_reading : forall a b,
   psnap_same a b = true <->
-  (forall q, In q (fst a) <-> In q (fst b)) /\ (forall g, g = 0 \/ In g (snd a) <-> g = 0 \/ In g (snd b)).
+  (forall q, In q (fst a) <-> In q (fst b)) /\ (forall g, In g (snd a) <-> In g (snd b)).
 Proof. exact psnap_same_reading. Qed.
 Print Assumptions C13_same_reading.
 
@@ -76,75 +75,51 @@ Theorem C13_run_reading : forall prev e l,
 Proof. exact pure_run_reading. Qed.
 Print Assumptions C13_run_reading.
 
-(* ---- read programs: the purity of a serialiser, a query, a comparison is a
-   consequence of ONE checked fact - that it talks to the store through read
-   methods only (harness/c13.py records every store method a read calls; the
-   checker rejects any other) ---- *)
+(* ---- (B) the read interface as a language: true by construction ---- *)
 
-(* ANY program over the store's read interface - whatever it computes in
-   between - leaves quads, union-only triples, front-end kind and the set of
-   graph names (default graph counted as present) as they were *)
-Theorem C13_program_pure : forall A (pr : prog A) s,
-  let s' := fst (run pr s) in
-  quads (st (r_ds s')) = quads (st (r_ds s)) /\ orphans (st (r_ds s')) = orphans (st (r_ds s))
-  /\ (forall g, (g = 0 \/ In g (known (st (r_ds s')))) <-> (g = 0 \/ In g (known (st (r_ds s))))).
-Proof. intros A pr s. destruct (run_pure A pr s) as (H1 & H2 & _ & _ & H5 & _). auto. Qed.
-Print Assumptions C13_program_pure.
+(* any program leaves the dataset component of the state exactly as it was *)
+Theorem C13_interface_pure : forall A (pr : prog A) s, r_ds (fst (run pr s)) = r_ds s.
+Proof. exact run_ds. Qed.
+Print Assumptions C13_interface_pure.
 
-(* a program that only asks changes nothing at all; one that also registers the
-   default graph changes nothing once it is registered, and before that adds
-   exactly that registration *)
-Theorem C13_program_state : forall A (pr : prog A),
-  (quiet pr -> forall s, fst (run pr s) = s)
-  /\ (bind_free pr -> forall s, settled s -> fst (run pr s) = s)
-  /\ (bind_free pr -> forall s, fst (run pr s) = s \/ (fst (run pr s) = touch0 s /\ ~ settled s)).
-Proof.
-  intros A pr. split; [apply run_quiet_id|split]; [apply run_settled_id|apply run_bind_free_known].
-Qed.
-Print Assumptions C13_program_state.
+(* PARTIAL (hypothesis [bind_free], not a trigger): a program that binds no
+   prefix changes nothing and answers the same when run again after any other
+   such programs.  With binds, the prefix table - which is not part of the
+   property's state - may differ (see C13_interface_ns_blind_partial). *)
+Theorem C13_interface_repeatable_partial : forall A (pr : prog A) between s,
+  bind_free pr -> Forall sp_bind_free between ->
+  fst (run pr s) = s
+  /\ snd (run pr (fold_left sp_run between (fst (run pr s)))) = snd (run pr s).
+Proof. intros A pr between s H1 H2. split; [now apply run_bind_free_id|now apply run_repeatable]. Qed.
+Print Assumptions C13_interface_repeatable_partial.
 
-(* repeatability with other reads in between *)
-Theorem C13_program_repeatable : forall A (pr : prog A) between s,
-  settled s -> bind_free pr -> Forall sp_bind_free between ->
-  snd (run pr (fold_left sp_run between (fst (run pr s)))) = snd (run pr s).
-Proof. exact run_repeatable. Qed.
-Print Assumptions C13_program_repeatable.
-
-Theorem C13_program_repeatable_quiet : forall A (pr : prog A) between s,
-  quiet pr -> Forall sp_quiet between ->
-  snd (run pr (fold_left sp_run between (fst (run pr s)))) = snd (run pr s).
-Proof. exact run_repeatable_quiet. Qed.
-Print Assumptions C13_program_repeatable_quiet.
-
-(* prefix bindings (the one other benign write) do not reach the data: a program
-   that never asks for the prefix table answers the same whatever the table is *)
-Theorem C13_program_ns_blind : forall A (pr : prog A), ns_blind pr -> forall s s',
-  r_ds s = r_ds s' -> snd (run pr s) = snd (run pr s') /\ r_ds (fst (run pr s)) = r_ds (fst (run pr s')).
+(* PARTIAL (hypothesis [ns_blind]): a program that never asks for the prefix table
+   answers the same whatever the table is, whatever it binds *)
+Theorem C13_interface_ns_blind_partial : forall A (pr : prog A), ns_blind pr -> forall s s',
+  r_ds s = r_ds s' -> snd (run pr s) = snd (run pr s').
 Proof. exact run_ns_blind. Qed.
-Print Assumptions C13_program_ns_blind.
+Print Assumptions C13_interface_ns_blind_partial.
 
-(* the front end's own reads are such programs, and every method code the
-   checker accepts is an operation of the language; every write code is rejected *)
-Theorem C13_front_end_reads_are_programs : forall d ns p,
+(* by unfolding definitions: the model's quads(), graphs(), len() are runs of
+   three particular programs (this is how the model is written, not a fact about
+   rdflib) *)
+Theorem C13_model_reads_unfold_to_programs : forall d ns p,
   cg_quads d p CTriple = (let (s', l) := run (prog_quads p) {| r_ds := d; r_ns := ns |} in (r_ds s', l))
   /\ ds_graphs d = (let (s', l) := run (prog_graphs (is_ds d)) {| r_ds := d; r_ns := ns |} in (r_ds s', l))
-  /\ cg_len d = snd (run prog_len {| r_ds := d; r_ns := ns |})
-  /\ quiet (prog_quads p) /\ bind_free (prog_graphs (is_ds d)).
+  /\ cg_len d = snd (run prog_len {| r_ds := d; r_ns := ns |}).
 Proof.
-  intros d ns p. split; [apply quads_is_program|]. split; [apply graphs_is_program|]. split; [apply len_is_program|].
-  split; [apply prog_quads_quiet|apply prog_graphs_bind_free].
+  intros d ns p. split; [apply quads_is_program|]. split; [apply graphs_is_program|apply len_is_program].
 Qed.
-Print Assumptions C13_front_end_reads_are_programs.
+Print Assumptions C13_model_reads_unfold_to_programs.
 
+(* every store method the checker lets a read call is an operation of the
+   language; every write - add_graph of the default graph included - is rejected *)
 Theorem C13_recorded_calls : (forall c, call_ok c = true -> meth_kind c <> None)
-  /\ forallb (fun c => negb (call_ok c)) [30; 31; 32; 33; 34; 35; 36; 37; 38; 39; 40; 41; 42; 43; 44] = true.
+  /\ forallb (fun c => negb (call_ok c)) [21; 30; 31; 32; 33; 34; 35; 36; 37; 38; 39; 40; 41; 42; 43; 44] = true.
 Proof. split; [exact call_ok_is_op|exact write_codes_rejected]. Qed.
 Print Assumptions C13_recorded_calls.
 
-(* non-vacuity: a dataset with an IRI-named, a blank-node-named and an empty
-   known graph; restricted reads through an identifier and through a
-   same-store Graph object and through a Graph of another store, graphs(), and opaque reads are all in scope,
-   accepted, and the snapshots are not empty *)
+(* non-vacuity *)
 Example C13_nonvacuous :
   let c := {| p_ds := true;
               p_build := [OAdd (1, 3, 2) (CQuad (Some (GId 1))); OAdd (8, 4, 5) (CQuad (Some (GId 3)));
